@@ -26,6 +26,10 @@ DEEP = {'deepcopy'}
 SCALAR_FUNCS = {'float', 'int', 'len', 'str', 'bool', 'abs', 'round', 'repr', 'format', 'max', 'min', 'sum'}
 STR_METHODS = {'lower', 'upper', 'strip', 'lstrip', 'rstrip', 'replace', 'split', 'join', 'format',
                'startswith', 'endswith', 'find', 'count', 'to_string', 'is_integer', 'isdigit'}
+# attributes whose value is an immutable int / tuple of ints / dtype on every array-like the repository handles
+# (numpy arrays, Quantities, the repository's BoundingBox and RegionMask): an augmented assignment to a local bound
+# to one of them rebinds the local
+IMMUTABLE_ATTRS = {'size', 'ndim', 'shape', 'nbytes', 'itemsize'}
 MAXPATH = 4
 
 
@@ -405,6 +409,10 @@ class _FuncAnalysis:
                 return 'scalar'
         if isinstance(n, ast.Subscript) and self.kind_of(n.value, env) == 'scalar':
             return 'scalar'   # slice / index of a str
+        if isinstance(n, ast.Attribute) and n.attr in IMMUTABLE_ATTRS and \
+                not (isinstance(n.value, ast.Name) and n.value.id == 'self'):
+            # (`self.shape` of a repository class may be anything, e.g. the CRTF parser's _Shape record)
+            return 'scalar'
         if isinstance(n, ast.IfExp):
             return 'scalar' if self.kind_of(n.body, env) == 'scalar' and self.kind_of(n.orelse, env) == 'scalar' else 'unknown'
         return 'unknown'
@@ -642,6 +650,10 @@ class _FuncAnalysis:
         is_module_func = isinstance(f, ast.Attribute) and isinstance(f.value, ast.Name) and \
             f.value.id not in env and self.m.resolve_name(self.fi.module, f.value.id)[0] in ('module', 'ext')
         if isinstance(f, ast.Attribute) and not is_module_func:
+            if short == 'partition' and n.args and isinstance(n.args[0], ast.Constant) and \
+                    isinstance(n.args[0].value, str):
+                # str.partition(sep) returns a tuple of new strings; ndarray.partition takes an integer kth
+                return set()
             if short in MUTATORS:
                 self.mutate(recv, n, f'.{short}() mutates its receiver')
                 allv = set()
